@@ -48,7 +48,7 @@ impl Step {
     fn coq(&self) -> String {
         match self {
             Step::Begin(t, ps) => format!("Begin {} {}", t, list(ps.iter().map(|p| n(*p)))),
-            Step::Lock(h, _) => format!("Lock {h}"),
+            Step::Lock(h, t) => format!("Lock {h} {t}"),
             Step::Vote(t, s, v) => format!("Vote {} {} {}", t, s, v.coq()),
             Step::Commit(t, o) => format!("Commit {} {}", t, list(o.iter().map(|h| n(*h)))),
             Step::Abort(t) => format!("Abort {t}"),
@@ -311,9 +311,10 @@ fn robs_coq(o: &RObs) -> String {
         list(o.4.iter().map(|x| n(*x)))
     )
 }
-fn restart_obs(path: &Path, prefix: &[u8], ids: &Ids, t: u64, now: u64) -> Option<RObs> {
-    verif_clock::set(Some(now));
-    // instance A
+type AObs = (Vec<u64>, CObs, Vec<Vec<u64>>, CObs);
+/// instance A (clock must already be `now`): recover, observe, drive every transaction to its
+/// natural completion, observe again
+fn inst_a(path: &Path, prefix: &[u8], ids: &Ids, t: u64) -> Option<AObs> {
     fs::write(path, prefix).unwrap();
     let a = open(path).ok()?;
     let st = a.recover_from_wal().ok()?;
@@ -335,16 +336,72 @@ fn restart_obs(path: &Path, prefix: &[u8], ids: &Ids, t: u64, now: u64) -> Optio
         probes.push(r);
     }
     let o1 = observe(&a, ids, t);
-    drop(a);
-    // instance B: the timeout sweeper 6 s later
+    Some((stats, o0, probes, o1))
+}
+/// instance B, first half (clock = now): recover only
+fn inst_b(path: &Path, prefix: &[u8]) -> Option<DistributedTxCoordinator> {
     fs::write(path, prefix).unwrap();
     let bco = open(path).ok()?;
     bco.recover_from_wal().ok()?;
-    verif_clock::set(Some(now + 6000));
-    let mut touts: Vec<u64> = bco.cleanup_timeouts().into_iter().map(|r| ids.tx_model(r)).collect();
-    touts.sort_unstable();
+    Some(bco)
+}
+
+/// restart at every offset of `offsets`; three phases so that the process-global clock hook has
+/// one value per phase while the restarts themselves run on several threads
+fn restart_all(scratch: &Path, fbytes: &[u8], offsets: &[u64], ids: &Ids, t: u64, now: u64) -> Vec<(u64, Option<RObs>)> {
+    let nthreads = 12usize.min(offsets.len().max(1));
+    let chunk = ((offsets.len() + nthreads - 1) / nthreads.max(1)).max(1);
     verif_clock::set(Some(now));
-    Some((stats, o0, probes, o1, touts))
+    let mut av: Vec<(u64, Option<AObs>)> = vec![];
+    let mut bv: Vec<(u64, Option<DistributedTxCoordinator>)> = vec![];
+    std::thread::scope(|sc| {
+        let mut hs = vec![];
+        for (ti, part) in offsets.chunks(chunk).enumerate() {
+            let path = scratch.with_extension(format!("a{ti}"));
+            let pathb = scratch.with_extension(format!("b{ti}"));
+            hs.push(sc.spawn(move || {
+                let mut oa = vec![];
+                let mut ob = vec![];
+                for &k in part {
+                    oa.push((k, inst_a(&path, &fbytes[..k as usize], ids, t)));
+                    // one file per B instance: they stay open until the sweep
+                    let pb = pathb.with_extension(format!("b{ti}-{k}"));
+                    ob.push((k, inst_b(&pb, &fbytes[..k as usize]), pb));
+                }
+                let _ = fs::remove_file(&path);
+                (oa, ob)
+            }));
+        }
+        for h in hs {
+            let (oa, ob) = h.join().unwrap();
+            av.extend(oa);
+            for (k, c, pb) in ob {
+                let _ = fs::remove_file(&pb);
+                bv.push((k, c));
+            }
+        }
+    });
+    // the timeout sweeper 6 s later (it writes nothing to the log)
+    verif_clock::set(Some(now + 6000));
+    let mut touts: BTreeMap<u64, Option<Vec<u64>>> = BTreeMap::new();
+    for (k, c) in bv {
+        touts.insert(k, c.map(|c| {
+            let mut v: Vec<u64> = c.cleanup_timeouts().into_iter().map(|r| ids.tx_model(r)).collect();
+            v.sort_unstable();
+            v
+        }));
+    }
+    verif_clock::set(Some(now));
+    av.sort_by_key(|x| x.0);
+    av.into_iter()
+        .map(|(k, a)| {
+            let ro = match (a, touts.remove(&k).flatten()) {
+                (Some((stats, o0, probes, o1)), Some(tv)) => Some((stats, o0, probes, o1, tv)),
+                _ => None,
+            };
+            (k, ro)
+        })
+        .collect()
 }
 
 /// the oracle of Run.v on one crash point, only to label the evidence
@@ -406,8 +463,8 @@ fn run_generation(c: DistributedTxCoordinator, wal: &Path, scratch: &Path, steps
     let recs = parse(&fbytes);
     let mut runs: Vec<(u64, u64, u64, Option<RObs>)> = vec![];
     let mut fail = None;
-    for k in base..=len {
-        let ro = restart_obs(scratch, &fbytes[..k as usize], ids, t, *clock);
+    let offsets: Vec<u64> = (base..=len).collect();
+    for (k, ro) in restart_all(scratch, &fbytes, &offsets, ids, t, *clock) {
         if fail.is_none() {
             if let Some(f) = oracle_label(&recs, ids, k, &ro, t) {
                 fail = Some(format!("crash at byte {k} of {len}: {f}"));
@@ -620,7 +677,7 @@ fn main() {
     );
 
     // ---------------- seeded ----------------
-    let ncases = args.budget(30, 900);
+    let ncases = args.budget(12, 600);
     for ci in 0..ncases {
         let ngen = rng.range(1, 3) as usize;
         let mut next_tx = 0;
